@@ -63,7 +63,8 @@ SameIndex(Bd, a) == \E down \in BOOLEAN : SameIndexAs(Bd, BuildIndexP(a, R.eps, 
 Modelled(a) == Offset /\ R.cls = "PGMIndex" /\ Len(a) <= MaxModelN /\ R.sent <= 30000
 \* tier B for the one-level CompressedPGMIndex: stored segment keys and decoded intercepts = CompressedOps!BuildCompP
 \* (exact midpoint slopes; the float slope of the code can move a rounded intercept by one: drift, never an alarm)
-ModelledC(a) == Offset /\ R.cls = "Compressed" /\ R.chunks = 1 /\ Len(a) <= MaxModelN /\ R.sent <= 30000
+\* (exact rationals in 32-bit integers: with keys spanning at most 20 and ranks below 50 every intermediate product stays below 2^31)
+ModelledC(a) == Offset /\ R.cls = "Compressed" /\ R.chunks = 1 /\ Len(a) <= 40 /\ R.eps <= 8 /\ a[Len(a)] - a[1] <= 20 /\ R.sent <= 30000
 SameCompressed(Bd, a) ==
   \E up \in BOOLEAN :
      IF R.epsrec = 0
